@@ -178,7 +178,7 @@ def wake1(ctx: Ctx, chk) -> None:
                 g = CFG(f.node)
                 cn = Canon(I, f)
                 sets = [x for x in g.nodes if x.kind == "stmt" and isinstance(x.ast, ast.Assign) and any(isinstance(t, ast.Attribute) and t.attr == "sleeping" and cn.canon(t.value) == "gateway.nodes[In.node_id]" for t in x.ast.targets) and isinstance(x.ast.value, ast.Constant) and x.ast.value.value is True]
-                cnodes = g.nodes_where(lambda x: any(y is calls[0] for y in ast.walk(x.ast)))
+                cnodes = g.nodes_where(lambda x: x.contains(calls[0]))
                 where = ctx.loc(f, calls[0])
                 if sets and cnodes and all(any(g.dominates(s, c) for s in sets) for c in cnodes):
                     ok = True
